@@ -1,5 +1,7 @@
 import Canopy.Proof.Key
 import Canopy.Gen.Keys
+import Canopy.Proof.SignBytes
+import Canopy.Gen.Proto
 /-!
 # C19 (a) — composite store keys never collide and never fall into each other's prefix range
 
@@ -148,5 +150,199 @@ hypothesis `length ≤ 255` is necessary (witness: collision of two different se
 theorem join_collides_at_256 :
     joinLenPrefix [List.replicate 256 (0 : UInt8)] = joinLenPrefix (List.replicate 257 []) := by
   decide +kernel
+
+/-!
+# C19 (b) — sign bytes and identity hashes: different meaning, different bytes
+
+Every sign-bytes function of the code is `lib.Marshal ∘ project` (`Model/SignBytes.lean`,
+`Model/Proto.lean`): deterministic marshalling of a projection of the item. `lib.Marshal` is injective
+on well-formed contents (`Proto.canon_injective`, `SignBytes.canonQc_inj`, `canonMsg_inj`: consequences
+of the wire round trip `parse (encFields fs) = some fs`), so two items share sign bytes only if their
+projections are equal. What each projection keeps is regenerated from the Go source and pinned below.
+Identity hashes are `H ∘ lib.Marshal`; `H` (SHA-256) is idealised as collision-free, nothing is proved
+about it.
+
+`WF` hypotheses: integers fit 64 bits, strings are valid UTF-8, byte strings have a length that fits a
+varint (`Small`, i.e. < 2^64 — every byte string that exists). Sub-messages the sign-bytes functions
+never open (`CertificateResult`, `AggregateSignature`, `VDF`) are carried as their canonical bytes.
+-/
+open Canopy.Proto Canopy.SignBytes
+
+/-! ## what the sign-bytes functions keep (facts from `lib/certificate.go`, `bft/msg.go`, `lib/tx.go`) -/
+
+theorem qc_signbytes_facts :
+    Gen.Proto.qcElectionVoteFields = [("Header", "x.Header"), ("ProposerKey", "x.ProposerKey")] ∧
+    Gen.Proto.qcStrippedFields = ["Results", "Block", "Signature"] := by decide
+
+/-- the literals `bft.Message.SignBytes` marshals: leader message; its certificate; the vote; the
+pacemaker message and its certificate -/
+theorem msg_signbytes_facts : Gen.Proto.msgSignBytesLiterals =
+    [("Message", [("Header", "x.Header"), ("Vrf", "x.Vrf"), ("HighQc", "x.HighQc"), ("LastDoubleSignEvidence", "x.LastDoubleSignEvidence")]),
+     ("QC", [("Header", "x.Qc.Header"), ("BlockHash", "x.Qc.BlockHash"), ("ResultsHash", "x.Qc.ResultsHash"), ("ProposerKey", "x.Qc.ProposerKey"), ("Signature", "x.Qc.Signature")]),
+     ("QC", [("Header", "x.Qc.Header"), ("BlockHash", "x.Qc.BlockHash"), ("ResultsHash", "x.Qc.ResultsHash"), ("ProposerKey", "x.Qc.ProposerKey")]),
+     ("Message", [("Qc", "<literal>")]),
+     ("QC", [("Header", "x.Qc.Header")])] := by decide +kernel
+
+theorem msg_kind_facts :
+    Gen.Proto.src_IsProposerMessage = "h := x.Header; if h == nil { return false }; return h.Phase == Election || h.Phase == Propose || h.Phase == Precommit || h.Phase == Commit" ∧
+    Gen.Proto.src_IsReplicaMessage = "if x.Qc == nil || x.Qc.Header == nil || x.Header != nil { return false }; h := x.Qc.Header; return h.Phase == ElectionVote || h.Phase == ProposeVote || h.Phase == PrecommitVote" ∧
+    Gen.Proto.src_IsPacemakerMessage = "if x.Qc == nil || x.Qc.Header == nil { return false }; return x.Qc.Header.Phase == RoundInterrupt" := by
+  decide +kernel
+
+/-- field numbers of the modelled schemas and the values of `Phase` -/
+theorem signbytes_schemas :
+    (Gen.Proto.schema "View").map (fun f => (f.1, f.2.1)) =
+      [(1, "network_id"), (2, "chain_id"), (3, "height"), (4, "root_height"), (5, "round"), (6, "phase")] ∧
+    (Gen.Proto.schema "QuorumCertificate").map (fun f => (f.1, f.2.1)) =
+      [(1, "header"), (2, "results"), (3, "results_hash"), (4, "block"), (5, "block_hash"), (6, "proposer_key"), (7, "signature")] ∧
+    (Gen.Proto.schema "DoubleSignEvidence").map (fun f => (f.1, f.2.1)) = [(1, "vote_a"), (2, "vote_b")] ∧
+    (Gen.Proto.schema "Message").map (fun f => (f.1, f.2.1, f.2.2.2)) =
+      [(1, "header", ""), (2, "vrf", ""), (3, "qc", ""), (4, "high_qc", ""), (5, "last_double_sign_evidence", "repeated"),
+       (6, "vdf", ""), (7, "signature", ""), (8, "timestamp", ""), (9, "rcBuildHeight", "")] ∧
+    (Gen.Proto.enumValues.find? (·.1 == "Phase")).map (·.2) =
+      some [("UNKNOWN", 0), ("ELECTION", phElection), ("ELECTION_VOTE", phElectionVote), ("PROPOSE", phPropose),
+            ("PROPOSE_VOTE", phProposeVote), ("PRECOMMIT", phPrecommit), ("PRECOMMIT_VOTE", phPrecommitVote),
+            ("COMMIT", phCommit), ("COMMIT_PROCESS", 8), ("ROUND_INTERRUPT", phRoundInterrupt), ("PACEMAKER", 10)] := by
+  decide
+
+/-! ## transactions -/
+
+/-- two transactions with equal sign bytes agree on everything but the signature -/
+theorem tx_signbytes_injective (t₁ t₂ : TxContent) (h₁ : t₁.unsigned.WF) (h₂ : t₂.unsigned.WF)
+    (h : signBytes t₁ = signBytes t₂) : t₁.unsigned = t₂.unsigned :=
+  Proto.canon_injective _ _ h₁ h₂ h
+
+/-- two well-formed transactions that differ have different canonical bytes (hence, `H` being
+collision-free, different `GetHash` identities) -/
+theorem tx_identity_injective (t₁ t₂ : TxContent) (h₁ : t₁.WF) (h₂ : t₂.WF) (h : t₁ ≠ t₂) : canon t₁ ≠ canon t₂ :=
+  fun e => h (Proto.canon_injective _ _ h₁ h₂ e)
+
+/-! ## certificates and votes -/
+
+/-- equal certificate sign bytes ⇒ equal view (height, round, phase, …) and proposer key -/
+theorem qc_signbytes_header (q₁ q₂ : QcC) (h₁ : q₁.WF) (h₂ : q₂.WF) (h : qcSignBytes q₁ = qcSignBytes q₂) :
+    q₁.header = q₂.header ∧ q₁.proposerKey = q₂.proposerKey := by
+  have e := qcSignBytes_inj q₁ q₂ h₁ h₂ h
+  have eh := congrArg QcC.header e
+  have ep := congrArg QcC.proposerKey e
+  rw [signProjection_header, signProjection_header] at eh
+  rw [signProjection_pk, signProjection_pk] at ep
+  exact ⟨eh, ep⟩
+
+/-- … and, outside the ELECTION_VOTE case, equal block hash and results hash: two votes for
+different payloads in one view never share sign bytes (this is the test `bytes.Equal(VoteA.SignBytes(),
+VoteB.SignBytes())` of the double-sign evidence check) -/
+theorem qc_signbytes_payload (q₁ q₂ : QcC) (h₁ : q₁.WF) (h₂ : q₂.WF) (hv : q₁.isElectionVote = false)
+    (h : qcSignBytes q₁ = qcSignBytes q₂) : q₁.blockHash = q₂.blockHash ∧ q₁.resultsHash = q₂.resultsHash := by
+  have e := qcSignBytes_inj q₁ q₂ h₁ h₂ h
+  have hh := (qc_signbytes_header q₁ q₂ h₁ h₂ h).1
+  have hv₂ : q₂.isElectionVote = false := by rw [← isElectionVote_of_header q₁ q₂ hh]; exact hv
+  simp only [QcC.signProjection, hv, hv₂, Bool.false_eq_true, if_false, QcC.mk.injEq] at e
+  exact ⟨e.2.2.2.2.1, e.2.2.1⟩
+
+/-- the ELECTION_VOTE special case is disjoint from the general case: the phase is inside the bytes -/
+theorem election_vote_disjoint (q₁ q₂ : QcC) (h₁ : q₁.WF) (h₂ : q₂.WF) (hv₁ : q₁.isElectionVote = true)
+    (hv₂ : q₂.isElectionVote = false) : qcSignBytes q₁ ≠ qcSignBytes q₂ := by
+  intro h
+  have hh := (qc_signbytes_header q₁ q₂ h₁ h₂ h).1
+  rw [isElectionVote_of_header q₁ q₂ hh, hv₂] at hv₁
+  exact absurd hv₁ (by decide)
+
+/-- non-vacuity, and what the special case deliberately drops: two ELECTION_VOTE certificates for
+the same view and candidate share sign bytes whatever their block / results hashes -/
+example :
+    let v : ViewC := ⟨1, 1, 10, 5, 0, phElectionVote⟩
+    qcSignBytes ⟨some v, none, [1], [], [2], [7], none⟩ = qcSignBytes ⟨some v, none, [3], [], [4], [7], none⟩ ∧
+    qcSignBytes ⟨some { v with phase := phProposeVote }, none, [1], [], [2], [7], none⟩ ≠
+      qcSignBytes ⟨some { v with phase := phProposeVote }, none, [3], [], [4], [7], none⟩ := by decide
+
+/-! ## consensus messages -/
+
+/-- two leader messages with equal sign bytes agree on header, VRF, the certificate's header / block
+hash / results hash / proposer key / aggregate signature, the high-QC and the evidence -/
+theorem proposer_signbytes_injective (m₁ m₂ : MsgC) (h₁ : m₁.WF) (h₂ : m₂.WF) (p₁ : m₁.isProposer = true)
+    (p₂ : m₂.isProposer = true) (h : msgSignBytes m₁ = msgSignBytes m₂) :
+    m₁.proposerProjection = m₂.proposerProjection := proposer_inj m₁ m₂ h₁ h₂ p₁ p₂ h
+
+/-- two votes with equal sign bytes are votes for the same view and proposer, and (except election
+votes) the same block and results -/
+theorem vote_signbytes_injective (m₁ m₂ : MsgC) (q₁ q₂ : QcC) (h₁ : m₁.WF) (h₂ : m₂.WF)
+    (n₁ : m₁.isProposer = false) (n₂ : m₂.isProposer = false) (r₁ : m₁.isReplica = true) (r₂ : m₂.isReplica = true)
+    (hq₁ : m₁.qc = some q₁) (hq₂ : m₂.qc = some q₂) (h : msgSignBytes m₁ = msgSignBytes m₂) :
+    q₁.header = q₂.header ∧ q₁.proposerKey = q₂.proposerKey ∧
+      (q₁.isElectionVote = false → q₁.blockHash = q₂.blockHash ∧ q₁.resultsHash = q₂.resultsHash) := by
+  rw [msgSignBytes_replica m₁ q₁ n₁ r₁ hq₁, msgSignBytes_replica m₂ q₂ n₂ r₂ hq₂] at h
+  have w₁ := voteProjection_wf q₁ (h₁.qc q₁ hq₁).1
+  have w₂ := voteProjection_wf q₂ (h₂.qc q₂ hq₂).1
+  obtain ⟨eh, ep⟩ := qc_signbytes_header (voteProjection q₁) (voteProjection q₂) w₁ w₂ h
+  refine ⟨eh, ep, fun hv => ?_⟩
+  exact qc_signbytes_payload (voteProjection q₁) (voteProjection q₂) w₁ w₂
+    (by simpa [QcC.isElectionVote, voteProjection] using hv) h
+
+/-- messages of different kinds never share sign bytes -/
+theorem msg_kinds_disjoint (m₁ m₂ : MsgC) (h₁ : m₁.WF) (h₂ : m₂.WF) (p₁ : m₁.isProposer = true)
+    (n₂ : m₂.isProposer = false) (k : m₂.isReplica = true ∨ (m₂.isReplica = false ∧ m₂.isPacemaker = true)) :
+    msgSignBytes m₁ ≠ msgSignBytes m₂ := by
+  rcases k with r | ⟨r, k⟩
+  · exact proposer_replica_disjoint m₁ m₂ h₁ h₂ p₁ n₂ r
+  · exact proposer_pacemaker_disjoint m₁ m₂ h₁ h₂ p₁ n₂ r k
+
+/-- **Observation (recorded, not a theorem about safety)**: `vdf`, `timestamp` and `rcBuildHeight` of a
+leader message are outside its sign bytes — two proposals that differ only there share sign bytes.
+`rcBuildHeight` is read by `HandleProposal`/`ValidateProposal`, `timestamp` by the block gossip. -/
+theorem proposer_fields_outside_signbytes :
+    let v : ViewC := ⟨1, 1, 10, 5, 0, phPropose⟩
+    let m : MsgC := { MsgC.empty with header := some v, timestamp := 1, rcBuildHeight := 5 }
+    msgSignBytes m = msgSignBytes { m with timestamp := 2, rcBuildHeight := 6, vdf := some [1, 2, 3] } := by decide
+
+/-!
+# C19 (c) — decoding untrusted bytes
+
+The modelled decoders (`Proto.preflight` = `lib.preflightProtoBytes`, `Proto.parse`, `Proto.decodeTx` =
+`lib.Unmarshal` for the critical `Transaction`, `decodeLenPrefixed`) are total functions defined by
+structural recursion: Lean's termination checker is the proof that *the model* neither hangs nor
+crashes on any byte string. That the real decoders and the handlers behind them do not panic or hang
+is sampled by the correspondence run (panic trap, per-case timeout), not proved.
+-/
+
+/-- an element larger than `protoMaxFieldBytes` is refused by the pre-flight scan wherever it occurs
+after well-formed fields -/
+theorem oversize_element_rejected (fs : List Field) (h : ∀ f ∈ fs, f.PreOK) (num : Nat) (b rest : Bytes)
+    (h1 : 1 ≤ num) (h2 : num ≤ maxFieldNum) (hb : protoMaxFieldBytes < b.length) (hs : b.length < 2 ^ 64) :
+    decodeTx (encFields fs ++ (encField ⟨num, .len b⟩ ++ rest)) = none := by
+  have := preflight_rejects_oversize fs h num b rest h1 h2 hb hs
+  simp [decodeTx, this]
+
+/-- a message larger than `protoMaxMessageBytes` is refused -/
+theorem oversize_message_rejected (raw : Bytes) (h : protoMaxMessageBytes < raw.length) : decodeTx raw = none := by
+  simp [decodeTx, h]
+
+/-- unknown fields are reported by the decoder and refused for the critical message -/
+theorem unknown_fields_rejected (raw : Bytes) (t : TxContent) (h : decodeLoose raw = some (t, true)) :
+    decodeTx raw = none := by
+  unfold decodeTx
+  split
+  · rfl
+  · split
+    · rfl
+    · simp [h]
+
+/-- whatever is accepted passed the scan, fits the size cap and carries no unknown field -/
+theorem accepted_bytes_are_clean (raw : Bytes) (t : TxContent) (h : decodeTx raw = some t) :
+    decodeLoose raw = some (t, false) ∧ preflight raw = true ∧ raw.length ≤ protoMaxMessageBytes :=
+  decodeTx_sound raw t h
+
+/-- a field number the schema does not know (here: any number above 10) is reported as unknown,
+at the top level of a transaction -/
+theorem unknown_field_reported (s : St TxContent) (f : Field) (h : 10 < f.num) : applyTx s f = some (s.1, true) := by
+  obtain ⟨num, val⟩ := f
+  simp only at h
+  unfold applyTx
+  split <;> first | rfl | (simp only at *; omega)
+
+/-- non-vacuity: the honest transaction with one unknown field appended is refused, a group wire type
+is refused, a truncated varint is refused — and the untouched bytes are accepted -/
+example : decodeTx [0x0a, 0x01, 0x61, 0x78, 0x01] = none ∧ decodeTx [0x0b] = none ∧ decodeTx [0x20, 0x80] = none ∧
+    decodeTx [0x0a, 0x01, 0x61] ≠ none := by decide
 
 end Canopy.C19
